@@ -277,6 +277,7 @@ def run(ctx):
 # ---- R15.4 -----------------------------------------------------------------------------------------------------------
     check_replace_unmakes(ctx)
     check_raw_child_drops(ctx, F)
+    check_set_ast_shared_children(ctx)
 
 
 def check_replace_unmakes(ctx):
@@ -379,3 +380,49 @@ def check_raw_child_drops(ctx, F):
                               sample={'handler': fi.key, 'store': norm(x, 60), 'classes': sorted(c.name for c in classes)})
     if n < 2:
         raise AnalysisError(f'only {n} raw None stores into own fields found in the put handlers')
+
+
+# ---- R15.6 -----------------------------------------------------------------------------------------------------------
+
+def check_set_ast_shared_children(ctx):
+    """`X._set_ast(NewClass(f=old.f, ...))` with the default `valid_fst=False, unmake=True` unmakes the whole old tree of X first - the child lists
+    shared with the new node included - and makes new FST nodes for all of them: every node under X that a running walk() holds (its pending
+    stack entries, the node the consumer just put) is dead although it is still in the tree.  A structured edit that changes the *class* of a node
+    and keeps its children hands them over as they are (`valid_fst=True`, or by re-pointing `.a` / `.f` itself).  The raw reparse is not bound by
+    this (it re-makes the statement it reparsed, documented)."""
+    ctx.rule('R15.6', 'a structured edit that gives a node a new AST built from the fields of the old one keeps the children\'s FST nodes '
+                      '(`_set_ast(..., valid_fst=True, unmake=False)` or manual re-linking), it does not unmake and re-make them', 0)
+    n = 0
+    for fi in ctx.repo.all_funcs():
+        if isinstance(fi.node, ast.Lambda) or fi.module in ('fst_raw',):
+            continue
+        binds = {}
+        for x in walk_no_nested(fi.node):
+            if isinstance(x, ast.Assign) and len(x.targets) == 1 and isinstance(x.targets[0], ast.Name):
+                binds.setdefault(x.targets[0].id, []).append(x.value)
+            elif isinstance(x, ast.NamedExpr):
+                binds.setdefault(x.target.id, []).append(x.value)
+        for c in walk_no_nested(fi.node):
+            if not (isinstance(c, ast.Call) and call_name(c) == '_set_ast' and isinstance(c.func, ast.Attribute) and c.args):
+                continue
+            valid = c.args[1] if len(c.args) > 1 else next((k.value for k in c.keywords if k.arg == 'valid_fst'), None)
+            recv = norm(c.func.value)
+            new = c.args[0]
+            if isinstance(new, ast.Name) and len(binds.get(new.id, [])) == 1:
+                new = binds[new.id][0]
+            if not (isinstance(new, ast.Call) and new.keywords and not new.args):
+                continue
+            # names for the receiver's current AST: `<recv>.a` or a local bound from it
+            olds = {recv + '.a'} | {k for k, vs in binds.items() if any(norm(v) == recv + '.a' for v in vs)}
+            shared = [k.arg for k in new.keywords if isinstance(k.value, ast.Attribute) and norm(k.value.value) in olds
+                      and k.arg not in ('lineno', 'col_offset', 'end_lineno', 'end_col_offset', 'ctx')]
+            if not shared:
+                continue
+            n += 1
+            unmk = c.args[2] if len(c.args) > 2 else next((k.value for k in c.keywords if k.arg == 'unmake'), None)
+            ok = isinstance(valid, ast.Constant) and valid.value is True and isinstance(unmk, ast.Constant) and unmk.value is False
+            ctx.check('R15.6', ok, fi.module, fi.qualname, f'{recv}._set_ast({norm(new.func)}(<fields of the old node>))',
+                      f'the new AST shares the children {shared} with the old one and is installed with valid_fst=False: _set_ast() unmakes the old tree '
+                      f'(these children included) and makes new FST nodes for them - every FST node below `{recv}` held by a running walk() or by the caller is '
+                      f'dead although its AST is still in the tree', c.lineno, sample={'function': fi.key, 'call': norm(c, 100)})
+    ctx.extra['set_ast_with_shared_children'] = n
